@@ -1685,6 +1685,26 @@ def make_ext_modules(I):
 
     it["chain"] = bi("itertools.chain", i_chain)
 
+    def i_islice(I, st, a, k):
+        """itertools.islice(iterable, stop) / (iterable, start, stop[, step]) with concrete non-negative ints or None
+        (eager, like every iterator of this engine)"""
+        import itertools as _it
+
+        if k or len(a) not in (2, 3, 4):
+            raise Unsupported("itertools.islice arguments")
+        for x in a[1:]:
+            if not (x is None or (isinstance(x, int) and not isinstance(x, bool))):
+                raise Unsupported("itertools.islice with symbolic bounds")
+            if x is not None and x < 0:
+                yield st, exc("ValueError", "Indices for islice() must be None or an integer: 0 <= x <= sys.maxsize.")
+                return
+        if len(a) == 4 and a[3] == 0:
+            yield st, exc("ValueError", "Step for islice() must be a positive integer or None.")
+            return
+        yield st, st.alloc(ListE(list(_it.islice(I.iterate(a[0], st), *a[1:]))))
+
+    it["islice"] = bi("itertools.islice", i_islice)
+
     def i_zip_longest(I, st, a, k):
         import itertools as _it
 
